@@ -1,0 +1,15 @@
+//go:build verif
+
+package timex
+
+import "time"
+
+// VerifNow, when non-nil, replaces the relative clock. Verification builds only.
+var VerifNow func() time.Duration
+
+func verifClock() (time.Duration, bool) {
+	if f := VerifNow; f != nil {
+		return f(), true
+	}
+	return 0, false
+}
